@@ -32,6 +32,18 @@ pub fn run_case(a: &Args) -> Value {
     ce.config.stat.interval_ms = iv;
     ce.config.log.metric.flush_interval_sec = 0; // no metric-log task in these processes
     ce.config.use_cache_time = false;
+    // a thread that exists - and has used Sentinel with the default configuration - before initialisation
+    let (tx_go, rx_go) = std::sync::mpsc::channel::<()>();
+    let (tx_ready, rx_ready) = std::sync::mpsc::channel::<()>();
+    let early = std::thread::spawn(move || {
+        let _ = geometry("c17-pre");
+        let _ = tx_ready.send(());
+        match rx_go.recv() {
+            Ok(()) => geometry("c17-early"),
+            Err(_) => json!("none"),
+        }
+    });
+    let _ = rx_ready.recv();
     let r = guarded(|| {
         if mode == "yaml" {
             let text = serde_json::to_string(&ce).unwrap(); // JSON is YAML
@@ -50,6 +62,8 @@ pub fn run_case(a: &Args) -> Value {
             if ok {
                 ev["geo_main"] = geometry("c17-main");
                 ev["geo_other"] = std::thread::spawn(|| geometry("c17-other")).join().unwrap_or(json!("panic: thread"));
+                let _ = tx_go.send(());
+                ev["geo_early"] = early.join().unwrap_or(json!("panic: thread"));
             } else {
                 ev["geo_main"] = json!("none");
                 ev["geo_other"] = json!("none");
